@@ -19,7 +19,7 @@ OWNER = {
 
 
 def owner_of(f: Finding, default: str) -> str:
-    if f.kind == 'mismatch' and default in ('C13', 'C18', 'C10', 'C06', 'C07'):
+    if default in ('C13', 'C18', 'C10', 'C06', 'C07'):
         return default        # dedicated scenario sets: every functional discrepancy there belongs to that property
     if f.kind == 'mismatch':
         w = f.what
@@ -29,6 +29,8 @@ def owner_of(f: Finding, default: str) -> str:
             if 'size_ctl' in w or 'next_table' in w or 'table length' in w or 'shrank' in w:
                 return 'C10' if default == 'C10' else 'C05'
             return 'C05'
+        if default in ('C02', 'C05') :
+            return default        # every functional discrepancy of a sequential script contradicts C02, and C05 where it concerns iteration / len / placement
         if 'retain' in w:
             return 'C13'
         if 'compute_if_present' in w:
@@ -38,6 +40,8 @@ def owner_of(f: Finding, default: str) -> str:
         if 'refused value' in w:
             return 'C04'
         return 'C02'
+    if default == 'C04' and f.kind in ('use-after-free', 'double-free') and ('from_raw of freed' in f.what or 'twice' in f.what or 'dropped after it was freed' in f.what):
+        return 'C04'          # freeing / dropping the same object a second time contradicts "dropped exactly once" as well as C03
     return OWNER.get(f.kind, default)
 
 
@@ -98,6 +102,18 @@ def scenarios_for(prop: str, tier: str, seed: int = 0) -> List[Scenario]:
         if thorough:
             for i, ops in enumerate(triple_scripts(ALPHA_CORE)):
                 add('identity/cap1/guard/triple%d' % i, hasher='identity', capacity=1, facade='guard', ops=ops, universe=4)
+        if prop == 'C02':
+            for hasher, cap in (('identity', 1), ('const', 1)):
+                add('%s/cap%s/extend-clone-index' % (hasher, cap), hasher=hasher, capacity=cap, ops=[('insert', 0), ('extend', 1, 2, 0), ('clone_eq',), ('index', 3), ('remove', 1), ('extend', 3, 3), ('clone_eq',), ('len',)], universe=3)
+            for hasher in ('identity', 'const'):
+                add('%s/sets/relations' % hasher, hasher=hasher, ops=[('sinsert', 'A', 0), ('sinsert', 'A', 1), ('sinsert', 'B', 2), ('sinsert', 'B', 0), ('srelations',), ('sremove', 'A', 3), ('stake', 'B', 1),
+                                                                 ('sget', 'A', 2), ('scontains', 'B', 3), ('srelations',)], universe=3)
+            add('samebin/tree/extend-clone', hasher='samebin', capacity=40, prefill=list(range(10)), ops=[('extend', 0, ('c', 3)), ('clone_eq',), ('index', 1)], universe=12)
+        for first in (('reserve', ('c', 3)), ('reserve', ('c', 8)), ('extend', 0, 1, 2)):
+            add('identity/fresh/%s-first' % first[0] + str(first[1] if first[0] == 'reserve' else ''), hasher='identity', capacity=None, ops=[first, ('insert', 0), ('insert', 1), ('insert', 2), ('insert', ('c', 9)), ('insert', ('c', 10)), ('get', 3)], universe=4,
+                check_each_step=True)
+        for kind in ('retain_replace', 'retain_force_replace'):
+            add('const/cap1/guard/%s' % kind, hasher='const', capacity=1, ops=[('insert', 0), ('insert', 1), (kind,), ('get', 2)], universe=3)
         # longer scripts that cross two resizes, with guard refresh in between (reclamation really happens mid-script)
         long_ops = [('insert', 0), ('insert', 1), ('insert', 2), ('repin',), ('remove', 3), ('insert', 4), ('compute_none', 1), ('repin',), ('get', 2), ('insert', 0)]
         add('identity/cap1/guard/long', hasher='identity', capacity=1, ops=long_ops, universe=3)
@@ -106,7 +122,8 @@ def scenarios_for(prop: str, tier: str, seed: int = 0) -> List[Scenario]:
         for hasher in ('samebin', 'const'):
             pre = list(range(10))
             tree_ops = [[('insert', 0), ('remove', 1)], [('compute_none', 0), ('try_insert', 1)], [('remove_entry', 0), ('get_key_value', 1)],
-                        [('remove', ('c', 0)), ('remove', ('c', 1)), ('remove', ('c', 2)), ('remove', 0), ('get', 1)], [('clear',), ('insert', 0)], [('retain',), ('insert', 0)]]
+                        [('remove', ('c', 0)), ('remove', ('c', 1)), ('remove', ('c', 2)), ('remove', 0), ('get', 1)], [('clear',), ('insert', 0)], [('retain',), ('insert', 0)],
+                        [('compute_some', 0), ('get', 1)], [('retain_replace',), ('get', 0)], [('retain_force_replace',), ('get', 0)]]
             if thorough:
                 tree_ops += [[('insert', 0), ('remove', 1), ('compute_some', 2)], [('compute_some', 0), ('remove', 0), ('remove', 1), ('remove', 2)]]
             tree_ops += [[('clear',), ('len',), ('insert', 0), ('len',)]]
@@ -183,6 +200,13 @@ def scenarios_for(prop: str, tier: str, seed: int = 0) -> List[Scenario]:
         # a tree bin is converted to a list (and the table resized) while the iterator stands inside it
         add('samebin/tree/untreeify-under-iterator', hasher='samebin', capacity=40, prefill=list(range(10)),
             ops=[('iter_new',), ('iter_next', ('c', 3)), ('remove', ('c', 9)), ('remove', ('c', 8)), ('remove', ('c', 7)), ('remove', 0), ('remove', 1), ('iter_drain',)], universe=10)
+        # a list bin is treeified (and later its nodes removed) while the iterator stands inside it
+        for hasher in ('samebin', 'const'):
+            for j in (1, 3):
+                add('%s/list/treeify-under-iterator/next%d' % (hasher, j), hasher=hasher, capacity=40, prefill=list(range(7)),
+                    ops=[('iter_new',), ('iter_next', ('c', j)), ('insert', ('c', 7)), ('insert', ('c', 8)), ('insert', 0), ('iter_drain',)], universe=10)
+            add('%s/list/remove-under-iterator' % hasher, hasher=hasher, capacity=40, prefill=list(range(5)),
+                ops=[('iter_new',), ('iter_next', ('c', 2)), ('remove', 0), ('remove', 1), ('iter_drain',)], universe=5)
         add('split/tree/split-under-iterator', hasher='split', capacity=40, prefill=list(range(12)),
             ops=[('iter_new',), ('iter_next', ('c', 2)), ('reserve', ('c', 40)), ('remove', 0), ('iter_drain',)], universe=12)
     if prop == 'C10':
@@ -241,6 +265,7 @@ def summarize(chk: C.Check, prop: str, results: List[Dict[str, Any]], scs: List[
     steps = sum(r.get('steps', 0) for r in results)
     queries = sum(r.get('queries', 0) for r in results)
     errors = [r for r in results if r.get('error')]
+    chk.coverage['slowest_scenarios'] = [(r['name'], round(r.get('time', 0), 1)) for r in sorted(results, key=lambda r: -r.get('time', 0))[:5]]
     uncovered = [r['name'] for r in results if not r.get('error') and not r.get('covered')]
     modelled: Dict[str, int] = {}
     executed: Dict[str, int] = {}
